@@ -15,9 +15,11 @@ theorem tie_parseCfgFilePatterns (d : IniDoc) :
   unfold GenF.parseCfgFilePatterns iniFilePatterns iniPatternLines
   rcases h1 : lookup "pycalver:file_patterns".toList d.sections with _ | items1 <;>
     simp only [Option.isSome_none, Option.isSome_some, Bool.false_eq_true, if_true, if_false,
-      foldl_append_singleton, List.nil_append, List.foldl_nil, List.map_nil]
+      foldl_append_singleton, foldl_append_if, List.filter_map, Function.comp_def, List.nil_append, List.foldl_nil,
+      List.map_nil]
   rcases h2 : lookup "bumpver:file_patterns".toList d.sections with _ | items2 <;>
     simp only [Option.isSome_none, Option.isSome_some, Bool.false_eq_true, if_true, if_false,
-      foldl_append_singleton, List.nil_append, List.foldl_nil, List.map_nil]
+      foldl_append_singleton, foldl_append_if, List.filter_map, Function.comp_def, List.nil_append, List.foldl_nil,
+      List.map_nil]
 
 end BV
